@@ -165,14 +165,18 @@ func init() {
 		func() []Unit { return scUnits(1, "notify3") },
 		func() []Unit { return scUnits(2, "notify3") })
 	clusterCheck("C09",
-		func() []Unit { return scUnits(1, "verify-nonvoter", "verify3", "verify-stale-ack", "verify-deposed") },
-		func() []Unit { return scUnits(2, "verify-nonvoter", "verify3", "verify-stale-ack", "verify-deposed") })
-	clusterCheck("C20",
 		func() []Unit {
-			return scUnits(1, "restore3-below", "restore3-equal", "restore3-above", "restore3-mono-below", "restore3-mono-above", "restore3-lagging", "restore-refused")
+			return scUnits(1, "verify-nonvoter", "verify3", "verify5-pair", "verify-stale-ack", "verify-deposed")
 		},
 		func() []Unit {
-			return scUnits(2, "restore3-below", "restore3-equal", "restore3-above", "restore3-mono-below", "restore3-mono-above", "restore3-lagging", "restore-refused")
+			return scUnits(2, "verify-nonvoter", "verify3", "verify5-pair", "verify-stale-ack", "verify-deposed")
+		})
+	clusterCheck("C20",
+		func() []Unit {
+			return scUnits(1, "restore3-below", "restore3-equal", "restore3-above", "restore3-mono-below", "restore3-mono-above", "restore3-lagging", "restore3-inflight", "restore-refused")
+		},
+		func() []Unit {
+			return scUnits(2, "restore3-below", "restore3-equal", "restore3-above", "restore3-mono-below", "restore3-mono-above", "restore3-lagging", "restore3-inflight", "restore-refused")
 		})
 }
 
